@@ -43,6 +43,12 @@ def slice {α : Type} (l : List α) (lo hi : Int) : List α := (l.take hi.toNat)
 /-- `x[i] = v` (meaningful when `idxOK`) -/
 def set {α : Type} (l : List α) (i : Int) (x : α) : List α := l.set i.toNat x
 
+/-- `copy(dst, src)`: the new value of `dst` -/
+def copy {α : Type} (dst src : List α) : List α := src.take dst.length ++ dst.drop src.length
+
+/-- `%d` of `fmt.Sprintf` -/
+def fmtInt (n : Int) : Bytes := if n < 0 then 45 :: decDigits (-n).toNat else decDigits n.toNat
+
 /-- the `int` a Go search function returns: `-1` = not found -/
 def optIdx : Option Nat → Int
   | some i => (i : Nat)
@@ -69,6 +75,32 @@ def forRangeFrom {α σ ρ : Type} (body : Int → α → σ → Ctl σ ρ) : In
     | .next s' => forRangeFrom body (i + 1) xs s'
     | .brk s' => .fin s'
     | .ret r => .ret r
+
+/-- how a fuel-bounded loop ends: like `Done`, or `out` = the fuel ran out before the loop ended -/
+inductive Loop (σ ρ : Type) where
+  | fin (s : σ)
+  | ret (r : ρ)
+  | out
+
+/-- `for ; cond; post { body }`: `step` tests the condition (`brk` when it fails) and runs the body;
+    `post` runs after a body that fell off its end or hit `continue`. One unit of fuel per iteration. -/
+def forLoop {σ ρ : Type} (step : σ → Ctl σ ρ) (post : σ → σ) : Nat → σ → Loop σ ρ
+  | 0, _ => .out
+  | fuel + 1, s =>
+    match step s with
+    | .next s' => forLoop step post fuel (post s')
+    | .brk s' => .fin s'
+    | .ret r => .ret r
+
+/-- `strconv.Atoi` on inputs too short to overflow (≤ 18 characters): optional sign, one or more
+    decimal digits. The error is the syntax error; the range error is not modelled. -/
+def atoi : Bytes → Int × Error
+  | 43 :: ds => match parseDec ds with
+    | some n => ((n : Nat), none) | none => (0, some "strconv.ErrSyntax")
+  | 45 :: ds => match parseDec ds with
+    | some n => (-((n : Nat) : Int), none) | none => (0, some "strconv.ErrSyntax")
+  | ds => match parseDec ds with
+    | some n => ((n : Nat), none) | none => (0, some "strconv.ErrSyntax")
 
 def forRange {α σ ρ : Type} (xs : List α) (s : σ) (body : Int → α → σ → Ctl σ ρ) : Done σ ρ :=
   forRangeFrom body 0 xs s
